@@ -205,6 +205,13 @@ func (x *Exec) eval1(ce *CEnv, e Expr) *Val {
 		switch n.Op {
 		case "!":
 			return &Val{Typ: boolT, T: x.b.Not(v.T)}
+		case "*":
+			pt, ok := v.Typ.Underlying().(*types.Pointer)
+			if !ok {
+				cfail("* applied to non-pointer %s", v.Typ)
+			}
+			loc := x.derefLoc(nil, nil, v)
+			return &Val{Typ: pt.Elem(), T: x.loadLoc(ce.st, loc)}
 		case "-":
 			if isUntyped(v) {
 				if v.Typ == untypedInt {
@@ -1227,6 +1234,22 @@ func (x *Exec) evalBuiltinSpec(ce *CEnv, name string, args []Expr) (*Val, bool) 
 	case "isnil":
 		v := x.eval(ce, args[0])
 		return &Val{Typ: boolT, T: x.isNil(v)}, true
+	case "allocated":
+		// allocated(p): the reference held by a pointer, map, channel or slice was
+		// allocated before this state (it lies below the allocation watermark), so it
+		// differs from everything allocated later.
+		v := x.eval(ce, args[0])
+		if _, ok := x.heapSorts["G_alloc"]; !ok {
+			x.heapSorts["G_alloc"] = "Int"
+		}
+		wm := x.getHeap(ce.st, "G_alloc")
+		switch v.Typ.Underlying().(type) {
+		case *types.Pointer, *types.Map, *types.Chan:
+			return &Val{Typ: boolT, T: x.b.Cmp("<", x.asTerm(v), wm)}, true
+		case *types.Slice:
+			return &Val{Typ: boolT, T: x.b.Cmp("<", x.sRef(x.asTerm(v)), wm)}, true
+		}
+		cfail("allocated() needs a pointer, map, channel or slice")
 	case "has":
 		m := x.eval(ce, args[0])
 		mt, ok := m.Typ.Underlying().(*types.Map)
